@@ -14,6 +14,134 @@ import (
 // Calls
 
 func (fr *Frame) call(instr ssa.Instruction, common *ssa.CallCommon, st *State, R string) Val {
+	anns := fr.matchCallAnns(common)
+	if len(anns) == 0 {
+		return fr.call1(instr, common, st, R)
+	}
+	var args []Val
+	for _, a := range common.Args {
+		args = append(args, fr.val(a))
+	}
+	var recv *Val
+	if common.IsInvoke() {
+		v := fr.val(common.Value)
+		recv = &v
+	} else if callee := common.StaticCallee(); callee != nil && callee.Signature.Recv() != nil && len(args) > 0 {
+		recv = &args[0]
+		args = args[1:]
+	}
+	pre := st.clone()
+	for _, a := range anns {
+		if !a.After {
+			fr.applyCallAnn(a, recv, args, nil, pre, st, R)
+		}
+	}
+	rv := fr.call1(instr, common, st, R)
+	for _, a := range anns {
+		if a.After {
+			fr.applyCallAnn(a, recv, args, &rv, pre, st, R)
+		}
+	}
+	return rv
+}
+
+// matchCallAnns returns the call-site annotations of the top-level contract that apply to this call.
+func (fr *Frame) matchCallAnns(common *ssa.CallCommon) []*CallAnn {
+	if !fr.top || fr.contract == nil || len(fr.contract.Calls) == 0 {
+		return nil
+	}
+	var names []string
+	if common.IsInvoke() {
+		names = append(names, fr.c.typeKey(common.Value.Type())+"."+common.Method.Name(), common.Method.Name(), fr.srcName(common.Value)+"."+common.Method.Name())
+	} else if callee := common.StaticCallee(); callee != nil {
+		k := fnKey(callee)
+		names = append(names, k, callee.Name())
+		if i := strings.Index(k, "."); i >= 0 {
+			names = append(names, k[i+1:])
+		}
+	} else {
+		names = append(names, fr.srcName(common.Value))
+	}
+	var out []*CallAnn
+	for _, a := range fr.contract.Calls {
+		hit := false
+		for _, n := range names {
+			if n == a.Callee {
+				hit = true
+			}
+		}
+		if !hit {
+			continue
+		}
+		a.seen++
+		if a.Ordinal != 0 && a.Ordinal != a.seen {
+			continue
+		}
+		a.matched = true
+		out = append(out, a)
+	}
+	return out
+}
+
+func (fr *Frame) applyCallAnn(a *CallAnn, recv *Val, args []Val, ret *Val, pre, st *State, R string) {
+	c := fr.c
+	vars := map[string]Val{}
+	for k, v := range fr.envVars {
+		vars[k] = v
+	}
+	fr.bindLocals(vars, st, nil)
+	if recv != nil {
+		vars["recv"] = *recv
+	}
+	for i, v := range args {
+		vars[fmt.Sprintf("arg%d", i)] = v
+	}
+	if ret != nil {
+		if len(ret.Tup) > 0 {
+			for i, v := range ret.Tup {
+				vars[fmt.Sprintf("ret%d", i)] = v
+			}
+		} else if ret.T != nil {
+			vars["ret0"] = *ret
+		}
+	}
+	env := &Env{c: c, st: st, old: fr.entrySt, vars: vars, pkg: pkgOf(fr.fn), guard: R}
+	if ret != nil {
+		env.old = pre
+	}
+	for i, as := range a.Asserts {
+		label := as.Label
+		if label == "" {
+			label = fmt.Sprintf("assert%d", i+1)
+		}
+		for k, cj := range c.splitGoal(env, as.E) {
+			nm := fmt.Sprintf("at{%s}.%s", a.Callee, label)
+			if cj.n > 1 {
+				nm = fmt.Sprintf("%s.%d", nm, k+1)
+			}
+			c.oblige("assert", fr.oblName(nm), R, cj.t)
+		}
+	}
+	for _, as := range a.Assumes {
+		c.assume(R, env.evalBool(as.E))
+		c.note("assumption at call site %s in %s: %s", a.Callee, fr.fn.Name(), as.Text)
+	}
+	for _, g := range a.Ghosts {
+		gd, ok := c.W.ghosts[g.Name]
+		if !ok {
+			c.fail("set: unknown ghost variable %s", g.Name)
+		}
+		rt := c.resolveType(env.pkg, gd.T)
+		v := env.eval(g.E)
+		if v.Const != nil {
+			v = env.coerceConst(v, rt.Go)
+		}
+		c.compSort["G|"+g.Name] = c.sortOfRT(rt)
+		st.heap["G|"+g.Name] = c.define("G_"+g.Name, c.sortOfRT(rt), v.L[0])
+	}
+}
+
+func (fr *Frame) call1(instr ssa.Instruction, common *ssa.CallCommon, st *State, R string) Val {
 	c := fr.c
 	var args []Val
 	for _, a := range common.Args {
